@@ -122,6 +122,10 @@ func VerifyJSON(signingName string, keyID KeyID, publicKey ed25519.PublicKey, me
 	if len(signature) != ed25519.SignatureSize {
 		return fmt.Errorf("Bad signature length from %q with ID %q", signingName, keyID)
 	}
+	if len(publicKey) != ed25519.PublicKeySize {
+		// ed25519.Verify panics on a key of any other length.
+		return fmt.Errorf("Bad public key length for %q with ID %q", signingName, keyID)
+	}
 
 	// The "unsigned" key and "signatures" keys aren't covered by the signature so remove them.
 	delete(object, "unsigned")
